@@ -55,6 +55,13 @@ pub struct Connector {
     pub timeout: Option<u16>,
     /// ticks the stream is kept after the nonce was written
     pub hold: u16,
+    /// the pending connect future is raced (select!, cancel branch first) against a signal the listener
+    /// program raises right after *any* accept() returned: the connector is cancelled in the window
+    /// between the accept of its request and its own next poll — a window no timer can hit, because
+    /// `tokio::time::timeout` polls the inner future first (what `JoinHandle::abort` or a `select!`
+    /// on an application event do)
+    #[serde(default)]
+    pub abort_on_accept: bool,
 }
 
 #[derive(Clone, Debug, Serialize, Deserialize, PartialEq)]
@@ -135,7 +142,8 @@ fn gen_scenario(rng: &mut Rng) -> Scenario {
             start = b;
         }
         let timeout = if rng.chance(1, 4) { Some(rng.range(1, 2 * lat + 8) as u16) } else { None };
-        conns.push(Connector { host, via, target, start, timeout, hold: rng.range(0, 6) as u16 });
+        let abort_on_accept = timeout.is_none() && target == Target::Listener && rng.chance(1, 6);
+        conns.push(Connector { host, via, target, start, timeout, hold: rng.range(0, 6) as u16, abort_on_accept });
     }
     let all_loop = conns.iter().all(|c| c.via == Via::Loopback);
     let mut lops = Vec::new();
@@ -225,7 +233,7 @@ enum Ev {
     LDrop,
     AcceptStart,
     AcceptOk { a: usize, local: SocketAddr, peer: SocketAddr, origin: SocketAddr },
-    Nonce { a: usize, got: Option<u64> },
+    Nonce { a: usize, got: Option<u64>, timed_out: bool },
     AccDrop { a: usize },
     /// a SYN left the link during this step (delivered to h0)
     Arrive { src: SocketAddr },
@@ -252,6 +260,8 @@ struct Sh {
     sleepers: Sleepers,
     audit: Rc<Cell<bool>>,
     accepted: Rc<Cell<usize>>,
+    /// raised (notify_waiters) by the listener program right after an accept() returned
+    accept_note: Rc<tokio::sync::Notify>,
     tick: Duration,
     hosts: usize,
     ipv6: bool,
@@ -292,7 +302,7 @@ async fn acceptor(sh: Sh, a: usize, mut s: TcpStream, keep: u16, wait: u64) {
         Ok(Ok(_)) => Some(u64::from_be_bytes(buf)),
         _ => None,
     };
-    sh.host_ev(Ev::Nonce { a, got }, format!("accepted #{a}: nonce {}", got.map(|g| format!("{g:#x}")).unwrap_or_else(|| format!("not received ({})", if r.is_err() { "timed out" } else { "eof/error" }))));
+    sh.host_ev(Ev::Nonce { a, got, timed_out: r.is_err() }, format!("accepted #{a}: nonce {}", got.map(|g| format!("{g:#x}")).unwrap_or_else(|| format!("not received ({})", if r.is_err() { "timed out" } else { "eof/error" }))));
     sh.sleep_ticks(keep as u64).await;
     drop(s);
     sh.host_ev(Ev::AccDrop { a }, format!("accepted #{a}: stream dropped"));
@@ -306,6 +316,7 @@ async fn accept_one(sh: &Sh, li: &TcpListener, keep: u16, wait: u64) {
             sh.accepted.set(a + 1);
             let (local, peer) = (s.local_addr().unwrap(), s.peer_addr().unwrap());
             sh.host_ev(Ev::AcceptOk { a, local, peer, origin }, format!("listener: accept -> #{a} local={local} peer={peer} origin={origin}"));
+            sh.accept_note.notify_waiters();
             tokio::task::spawn_local(acceptor(sh.clone(), a, s, keep, wait));
         }
         Err(e) => {
@@ -374,6 +385,18 @@ async fn connector(sh: Sh, x: usize, c: Connector) {
         }
     };
     let r = match c.timeout {
+        None if c.abort_on_accept => {
+            let note = sh.accept_note.clone();
+            let cancelled = async move { note.notified().await };
+            tokio::select! {
+                biased;
+                _ = cancelled => {
+                    sh.host_ev(Ev::ConnGaveUp { x }, format!("connector {x}: cancelled by the accept signal, connect future dropped"));
+                    return;
+                }
+                r = fut => r,
+            }
+        }
         Some(t) => match sh.sleepers.timed(tokio::time::timeout(sh.tick * t as u32, fut)).await {
             Ok(r) => r,
             Err(_) => {
@@ -464,6 +487,7 @@ fn execute(sc: &Scenario, keep: bool) -> (Report, Option<Outcome>) {
         sleepers: Sleepers::default(),
         audit: Rc::new(Cell::new(false)),
         accepted: Rc::new(Cell::new(0)),
+        accept_note: Rc::new(tokio::sync::Notify::new()),
         tick: sc.cfg.tick(),
         hosts: sc.hosts,
         ipv6: sc.cfg.ipv6,
@@ -670,6 +694,7 @@ struct AInfo {
     peer: SocketAddr,
     origin: SocketAddr,
     nonce: Option<Option<u64>>,
+    nonce_timed_out: bool,
     dropped: bool,
     pair: Option<usize>,
 }
@@ -792,9 +817,12 @@ fn judge(sc: &Scenario, o: &Outcome, probes: &mut Counters) -> (Option<Violation
             Ev::AcceptOk { a, local, peer, origin } => {
                 debug_assert_eq!(*a, acc.len());
                 accepts_outstanding -= 1;
-                acc.push(AInfo { seq: r.seq, t3: r.t3, local: *local, peer: *peer, origin: *origin, nonce: None, dropped: false, pair: None });
+                acc.push(AInfo { seq: r.seq, t3: r.t3, local: *local, peer: *peer, origin: *origin, nonce: None, nonce_timed_out: false, dropped: false, pair: None });
             }
-            Ev::Nonce { a, got } => acc[*a].nonce = Some(*got),
+            Ev::Nonce { a, got, timed_out } => {
+                acc[*a].nonce = Some(*got);
+                acc[*a].nonce_timed_out = *timed_out;
+            }
             Ev::AccDrop { a } => acc[*a].dropped = true,
             _ => {}
         }
@@ -905,6 +933,7 @@ fn judge(sc: &Scenario, o: &Outcome, probes: &mut Counters) -> (Option<Violation
         }
     }
     // accepted streams without a successful connector
+    let mut orphan_acc: Vec<Option<u64>> = vec![None; n];
     for a in 0..acc.len() {
         if acc[a].pair.is_some() {
             continue;
@@ -917,6 +946,25 @@ fn judge(sc: &Scenario, o: &Outcome, probes: &mut Counters) -> (Option<Violation
         let later = (0..n).any(|x| from_host(x) && ci[x].res == Res::GaveUp && ci[x].res_seq > ai.seq);
         if later {
             probes.inc("accepted_then_cancelled");
+            // its request was handed out by this accept (for the order check below); when several
+            // cancelled connectors fit, every one of them gets the benefit of the doubt
+            for x in 0..n {
+                if from_host(x) && ci[x].res == Res::GaveUp && ci[x].res_seq > ai.seq {
+                    orphan_acc[x] = Some(orphan_acc[x].map_or(ai.seq, |s: u64| s.min(ai.seq)));
+                }
+            }
+            // the accepted stream has no peer any more: the abandoned connect must end it (reset / EOF);
+            // its reader waited ceil(max_latency/tick)+6 ticks. Judged on links nobody touched.
+            let local_or_untouched = ai.peer.ip().is_loopback() || ai.peer.ip() == host_ip(0, sc.cfg.ipv6) || sc.script.is_empty();
+            if ai.nonce_timed_out && local_or_untouched {
+                return (
+                    Some(Violation::new(
+                        "OrphanAcceptedNeverEnded",
+                        format!("accept #{a} (step {}) returned a stream from {} whose connector then dropped its pending connect; nobody holds the other end, yet a read on the accepted stream was still pending {} ticks later (neither end-of-file nor a reset)", step_of(ai.t3), ai.peer, lat + 6),
+                    )),
+                    false,
+                );
+            }
             continue;
         }
         let earlier: Vec<usize> = (0..n).filter(|x| from_host(*x) && ci[*x].res == Res::GaveUp && ci[*x].res_seq < ai.seq).collect();
@@ -959,7 +1007,7 @@ fn judge(sc: &Scenario, o: &Outcome, probes: &mut Counters) -> (Option<Violation
             if ldrops.iter().any(|(t, s)| *t > yhi && *s < ai.seq) {
                 continue; // queued at an earlier incarnation of the listener
             }
-            let accepted_before = ci[y].paired.map(|b| acc[b].seq < ai.seq).unwrap_or(false);
+            let accepted_before = ci[y].paired.map(|b| acc[b].seq < ai.seq).unwrap_or(false) || orphan_acc[y].map(|s| s < ai.seq).unwrap_or(false);
             let resolved_before = !matches!(ci[y].res, Res::Pending | Res::Ok { .. }) && ci[y].res_seq < ai.seq;
             if accepted_before || resolved_before {
                 if ci[y].res == Res::GaveUp && resolved_before {
@@ -1282,6 +1330,11 @@ impl Property for C12 {
                 c.conns[i].timeout = None;
                 out.push(c);
             }
+            if c0.abort_on_accept {
+                let mut c = sc.clone();
+                c.conns[i].abort_on_accept = false;
+                out.push(c);
+            }
             if c0.hold > 0 {
                 let mut c = sc.clone();
                 c.conns[i].hold = 0;
@@ -1396,7 +1449,7 @@ mod tests {
         Scenario { cfg, guarded: false, hosts: 2, lops, conns, script: vec![] }
     }
     fn conn(host: usize, start: u16) -> Connector {
-        Connector { host, via: Via::Ip, target: Target::Listener, start, timeout: None, hold: 1 }
+        Connector { host, via: Via::Ip, target: Target::Listener, start, timeout: None, hold: 1, abort_on_accept: false }
     }
 
     /// accept_front_of_line-style script from /repo's own suite: the oracle is quiet
